@@ -195,9 +195,21 @@ type c27HookCfg struct {
 	hook func()
 }
 
+// c27Trace, when set (debugging only), receives one line per harness-visible event.
+var c27Trace func(format string, args ...any)
+
+func c27Tr(format string, args ...any) {
+	if c27Trace != nil {
+		c27Trace(format, args...)
+	}
+}
+
 func (w *c27HookCfg) Reload(opts ...config.ReloadedConfigDataOption) error {
-	opts = append(opts, func(*config.ReloadedConfigData) { w.hook() })
-	return w.Config.Reload(opts...)
+	c27Tr("reload enter")
+	opts = append(opts, func(*config.ReloadedConfigData) { c27Tr("reload at option"); w.hook() })
+	err := w.Config.Reload(opts...)
+	c27Tr("reload exit err=%v", err != nil)
+	return err
 }
 
 type c27Gate struct {
@@ -279,7 +291,20 @@ func c27Quiesce() (lockWaiters bool, capped bool) {
 		busy, locked := false, false
 		for _, h := range c27HeaderRe.FindAllSubmatch(buf[:n], -1) {
 			state := string(h[2])
-			if string(h[1]) == selfID || !strings.HasSuffix(state, bubble) {
+			if string(h[1]) == selfID {
+				continue
+			}
+			if !strings.Contains(state, "synctest bubble ") {
+				// A goroutine that was created but has not run yet is printed WITHOUT its bubble
+				// annotation ("goroutine N [runnable]:"), so a just-spawned trigger must not be taken
+				// for a foreign goroutine: anything unannotated that is ready to run counts as working.
+				// (Foreign goroutines of the test binary are parked in waits, which are ignored.)
+				if strings.HasPrefix(state, "runnable") || strings.HasPrefix(state, "running") {
+					busy = true
+				}
+				continue
+			}
+			if !strings.HasSuffix(state, bubble) {
 				continue
 			}
 			switch {
@@ -293,6 +318,9 @@ func c27Quiesce() (lockWaiters bool, capped bool) {
 			}
 		}
 		if !busy {
+			if c27Trace != nil {
+				c27Tr("quiesce return poll=%d dump:\n%s", poll, string(buf[:n]))
+			}
 			return locked, false
 		}
 		runtime.Gosched()
@@ -348,6 +376,7 @@ func (rt *c27Transport) RoundTrip(req *http.Request) (*http.Response, error) {
 	rt.mu.Lock()
 	body, ok := rt.content[req.URL.Path]
 	mode, ch := rt.mode, rt.release
+	c27Tr("fetch %s mode=%d len=%d", req.URL.Path, mode, len(body))
 	if mode != 0 {
 		rt.mode = 0 // only this request
 		rt.held++
@@ -446,6 +475,7 @@ func c27Execute(c c27Case) (run c27Run) {
 	args := []string{"refinery", "-c", cfgPath, "-r", rulesPath}
 
 	write := func(path string, data []byte, present bool) {
+		c27Tr("harness write %s len=%d present=%v", filepath.Base(path), len(data), present)
 		if up, ok := urlPaths[path]; ok {
 			rt.set(up, data, present)
 			return
@@ -684,6 +714,7 @@ func c27Execute(c c27Case) (run c27Run) {
 			}
 			go doReload()
 			c27Quiesce()
+			c27Tr("quiesce#1 done gateHeld=%d rtHeld=%d", gate.heldCount(), rt.heldCount())
 			if hold == "option" && gate.heldCount() == 0 {
 				// unreadable files: the first reload failed before its scheduling point; nothing is held
 				gate.open()
@@ -704,20 +735,21 @@ func c27Execute(c c27Case) (run c27Run) {
 			if hold != "option" {
 				// a reload held inside a fetch may legitimately have read one source before and the other
 				// after the change: record what such mixed reads load as
+				// (loaded from scratch files: the live sources only ever hold B, then C)
+				mixCfg, mixRules := filepath.Join(dir, "mix-config.yaml"), filepath.Join(dir, "mix-rules.yaml")
+				mixArgs := []string{"refinery", "-c", mixCfg, "-r", mixRules}
 				for _, mix := range []content{
 					{cfg: heldContent.cfg, cfgOK: heldContent.cfgOK, rules: onDisk.rules, rulesOK: onDisk.rulesOK},
 					{cfg: onDisk.cfg, cfgOK: onDisk.cfgOK, rules: heldContent.rules, rulesOK: heldContent.rulesOK},
 				} {
-					write(cfgPath, []byte(mix.cfg), mix.cfgOK)
-					write(rulesPath, []byte(mix.rules), mix.rulesOK)
-					if mc, acc, _, _ := fresh(); acc {
+					write(mixCfg, []byte(mix.cfg), mix.cfgOK)
+					write(mixRules, []byte(mix.rules), mix.rulesOK)
+					if mc, acc, _ := cxLoad(mixArgs, c.Version); acc {
 						o.AltSnaps = append(o.AltSnaps, c27SnapAll(mc))
-					} else if mc, acc, _ := cxLoad(args); acc {
+					} else if mc, acc, _ := cxLoad(mixArgs); acc {
 						o.AltSnaps = append(o.AltSnaps, c27SnapAll(mc))
 					}
 				}
-				write(cfgPath, []byte(onDisk.cfg), onDisk.cfgOK)
-				write(rulesPath, []byte(onDisk.rules), onDisk.rulesOK)
 			}
 			// the second trigger runs on its own goroutine: with a serialising implementation it cannot
 			// finish before the first is released; then they finish in the order the implementation imposes
